@@ -39,6 +39,8 @@
 EXTENDS MatTerms, FiniteSets, Json
 
 CONSTANTS MaxK, PVals, MVals, DVals, VVals, Emit, Mutants,
+          Deviations,   \* named deviations of the pinned code that the machine reproduces (those with an open finding;
+                        \* a repaired one is switched off and the machine then does what the repaired code does)
           KnownDevs     \* feature tags of the open known findings
 
 CDa == <<1, 7>>                               \* model value of tab(unit, Da, g)
@@ -74,7 +76,9 @@ Ideal(o, ps, ms, d, v) ==
 Machine(o, ps, ms, d, v, mut) ==
   LET k  == Len(ps)
       \* composite_mass after the first j components, and whether it is a mass
-      cmj(j) == IF o.cls = "element" THEN QMul(CDa, ms[1])                              \* Element: self.mass, one atom
+      cmj(j) == IF o.cls = "element"
+                THEN (IF "element_proportion" \in Deviations THEN QMul(CDa, ms[1])       \* Element: self.mass, one atom
+                      ELSE QMul(CDa, QMul(ps[1], ms[1])))
                 ELSE IF o.mode = "MASS_FRACTION" THEN QSumSeq(SubSeq(ps, 1, j))         \* np.sum(proportion): a bare number
                 ELSE QMul(CDa, QSumSeq([i \in 1..j |-> QMul(ps[i], ms[i])]))
       cm == cmj(k)
@@ -83,7 +87,8 @@ Machine(o, ps, ms, d, v, mut) ==
       V  == IF mut = "volume_ignored" THEN <<1, 1>> ELSE QMul(v, QP10(UExp(o.uv)))
       \* Composite.__init__ with a dict: add() + _norm() per component.  The first _norm sets BOTH densities;
       \* from then on "if self.mass_density:" wins.  A text expression is normalised once, at the end.
-      incremental == o.cls # "element" /\ o.form = "dict"
+      \* (repaired by remembering which density was given: then every _norm derives the other one afresh)
+      incremental == "number_density_dict_form" \in Deviations /\ o.cls # "element" /\ o.form = "dict"
       rho == IF o.given = "rho" THEN ds
              ELSE IF mut = "rho_is_n" THEN ds
              ELSE IF incremental THEN QMul(ds, cmj(1)) ELSE QMul(ds, cm)
